@@ -2,7 +2,7 @@
 
 use proptest::prelude::*;
 use serde::{Deserialize, Serialize};
-use vaporetto::{Predictor, Sentence, WordWeightRecord};
+use vaporetto::{Model, Predictor, Sentence, WordWeightRecord};
 use vcommon::engine::{Info, Report, TestResult};
 use vcommon::gen::{self, pick, ModelCfg};
 use vcommon::mirror::{ModelSpec, WordSpec};
@@ -131,11 +131,26 @@ pub fn test_library(case: &DictCase) -> TestResult {
     ensure_eq!(got, want, "Model::dictionary()");
     let before = scores(spec.to_model()?, &case.texts)?;
     let mut m2 = spec.to_model()?;
+    // the model has been serialised before its dictionary is edited (what a program that loads,
+    // saves, edits and saves again does)
+    let first = m2.to_vec().map_err(|e| format!("to_vec: {e}"))?;
     m2.replace_dictionary(to_records(&new_dict)?);
     let after_spec = ModelSpec::from_model(&m2)?;
     let mut expect_spec = spec.clone();
     expect_spec.dict = new_dict.clone();
     ensure_eq!(&after_spec, &expect_spec, "model after replace_dictionary (everything but the dictionary must be unchanged)");
+    let v = m2.to_vec().map_err(|e| format!("to_vec after replace_dictionary: {e}"))?;
+    let mut w = vec![];
+    m2.write(&mut w).map_err(|e| format!("write after replace_dictionary: {e}"))?;
+    ensure!(v == w, "to_vec() ({} bytes) and write() ({} bytes) differ after replace_dictionary on a model that was serialised before", v.len(), w.len());
+    ensure!(v == expect_spec.to_bytes(), "to_vec() after replace_dictionary is not the serialisation of the edited model");
+    if case.texts.len() % 2 == 1 {
+        // and back again
+        let mut m3 = Model::read_slice(&v).map_err(|e| format!("read_slice of the edited model: {e}"))?.0;
+        let _ = m3.to_vec();
+        m3.replace_dictionary(to_records(&spec.dict)?);
+        ensure!(m3.to_vec().ok() == Some(first.clone()), "replacing the dictionary back does not reproduce the first serialisation");
+    }
     let after = scores(m2, &case.texts)?;
     let mut moved = false;
     for (ti, text) in case.texts.iter().enumerate() {
@@ -361,7 +376,71 @@ fn scale_cases() -> Vec<DictCase> {
     out
 }
 
+/// One record: a word of `len` characters from `alphabet` and `n` weights.
+#[derive(Clone, Debug, Serialize, Deserialize)]
+pub struct PairCase {
+    pub word: String,
+    pub n: usize,
+}
+
+/// The record check on every small pair (word length, weight count): accepted iff the count is
+/// the length in characters plus one - by the library, and by the program for a one-row file.
+fn test_pair(c: &PairCase) -> TestResult {
+    let len = c.word.chars().count();
+    let ok = c.n == len + 1;
+    let weights: Vec<i32> = (0..c.n).map(|i| i as i32 - 2).collect();
+    let r = WordWeightRecord::new(c.word.clone(), weights.clone(), String::new());
+    ensure!(r.is_ok() == ok, "WordWeightRecord::new({:?}, {} weights) is {} (a word of {len} characters needs {} weights)", c.word, c.n, if r.is_ok() { "accepted" } else { "rejected" }, len + 1);
+    // the program: a model without dictionary, a file with this one row
+    let dir = util::Scratch::new("c19p");
+    let (min, mout, csv) = (dir.path("in.zst"), dir.path("out.zst"), dir.path("row.csv"));
+    let spec = ModelSpec { char_window: 1, type_window: 1, bias: -1, ..ModelSpec::default() };
+    std::fs::write(&min, util::zstd_encode(&spec.to_bytes())).map_err(|e| e.to_string())?;
+    let row = format!(
+        "word,weights,comment\n{},{},\n",
+        csv_field(&c.word),
+        weights.iter().map(|x| x.to_string()).collect::<Vec<_>>().join(" ")
+    );
+    std::fs::write(&csv, row).map_err(|e| e.to_string())?;
+    let s = |p: &std::path::PathBuf| p.to_string_lossy().to_string();
+    let r = util::run_tool(
+        "manipulate_model",
+        &["--model-in".into(), s(&min), "--replace-dict".into(), s(&csv), "--model-out".into(), s(&mout)],
+        b"",
+    )?;
+    ensure!(!r.stderr.contains("panicked"), "tool panics on the row ({:?}, {} weights): {}", c.word, c.n, r.stderr);
+    if ok {
+        ensure!(r.code == Some(0), "tool refuses the valid row ({:?}, {} weights): {}", c.word, c.n, r.stderr.lines().last().unwrap_or(""));
+        let out = util::zstd_decode(&std::fs::read(&mout).map_err(|e| format!("no output model: {e}"))?)?;
+        let mut want = spec.clone();
+        want.dict.push(WordSpec { word: c.word.clone(), weights, comment: String::new() });
+        ensure!(out == want.to_bytes(), "tool writes a different model for the valid row ({:?}, {} weights)", c.word, c.n);
+    } else {
+        ensure!(
+            r.code.is_some() && r.code != Some(0),
+            "tool accepts a row with {} weights for the word {:?} of {len} characters (exit {:?})",
+            c.n,
+            c.word,
+            r.code
+        );
+    }
+    Ok(Info::new(!ok).class(ok, "matching-count").class(len == 0, "empty-word").class(c.n == 0, "no-weights"))
+}
+
 pub fn run(rep: &mut Report) {
+    rep.run_enum(
+        "record-check-small-pairs",
+        "every pair (word of 0..4 characters over one-, two-, three- and four-byte alphabets, 0..7 \
+weights) as a single record through WordWeightRecord::new and as a one-row file through \
+manipulate_model --replace-dict: accepted iff the weight count is the character count plus one",
+        true,
+        ["ab,c", "éΩßя", "火星猫だ", "𠀋😀𠮷🎉"].into_iter().flat_map(|alpha| {
+            (0..=4usize).flat_map(move |len| {
+                (0..=7usize).map(move |n| PairCase { word: alpha.chars().take(len).collect(), n })
+            })
+        }),
+        test_pair,
+    );
     rep.run_enum(
         "scale-library",
         "replace_dictionary with 70,000 words and with words of 255 / 256 / 257 / 4,096 / 32,767 \
